@@ -58,6 +58,10 @@ class Run:
             self.broken.append(("snapshot", "translator aborted (fail-closed): " + p.stderr.decode(errors="replace")[-1500:]))
             return None
         self.snapshot_info = json.loads((self.gen / "snapshot.json").read_text())
+        if self.snapshot_info.get("emits_unresolved"):
+            # the AST scan for emitted __loader__ names met a value it cannot resolve to constants: not an alarm, but the
+            # per-run theorem "every emitted loader is registered" then speaks about the resolved part only
+            self.notes["emits_scan_incomplete"] = self.snapshot_info["emits_unresolved"][:10]
         self.checker_cmds.append("harness/snapshot.py -> Snapshot.v (regenerated from /repo)")
         try:
             C.coqc(self.gen / "Snapshot.v", self.gen)
